@@ -18,7 +18,7 @@ THEOREMS = [
     "Cog.Det.C03_run_deterministic", "Cog.Det.C03_range_admissible", "Cog.Det.C03_effects_compose",
     "Cog.Det.C03_effect_sound", "Cog.Det.C03_effect_witness",
     "Cog.Det.C03_nonadmissible_program_not_deterministic",
-    "Cog.Det.C03_sites", "Cog.Det.C03_known_are_nonadmissible", "Cog.Det.C03_full_counterexample",
+    "Cog.Det.C03_sites", "Cog.Det.C03_full_holds", "Cog.Det.C03_known_are_nonadmissible", "Cog.Det.C03_full_counterexample",
     "Cog.Det.C03_purity",
     # the shape lemmas behind C03_effect_sound, audited individually
     "Cog.Det.S_keyed_write", "Cog.Det.S_copy_map", "Cog.Det.S_set_insert", "Cog.Det.S_delete_keys",
@@ -28,7 +28,7 @@ THEOREMS = [
     "Cog.Det.S_error_capture", "Cog.Det.S_emit_files", "Cog.Det.S_merge_fs",
     "Cog.Det.N_append_unsorted", "Cog.Det.N_first_match_break", "Cog.Det.N_last_write_wins",
     "Cog.Det.N_keyed_write_collision", "Cog.Det.N_ordered_side_effect", "Cog.Det.N_nested_replace",
-    "Cog.Det.N_error_value", "Cog.Det.N_ordered_insert",
+    "Cog.Det.N_error_value", "Cog.Det.N_ordered_insert", "Cog.Det.N_sort_by_derived_key",
 ]
 PIPES = os.path.join(WORK, "c03", "pipes")
 
@@ -122,6 +122,8 @@ class Dyn:
 
     def pipeline(self, recipe, mode, n):
         args = {"cfg": recipe["cfg"], "mode": mode, "n": n, "name": "%s:%s" % (recipe["name"], mode), "site": recipe["site"]}
+        if recipe.get("params"):
+            args["params"] = recipe["params"]
         rows = harness(self.hb, "c03-pipeline", **args)
         self.handle("c03-pipeline", dict(args, pipeline=recipe["name"]), rows, recipe["expect"])
         return rows
@@ -146,7 +148,7 @@ def across_processes(dyn, recipe, mode, procs):
                [[req, reply, verdict]], recipe["expect"])
 
 
-UNIT_KNOWN = {"infer-mapping", "fields-set-default", "compose-builders"}
+UNIT_KNOWN = set()  # recipes at sites listed in Cog.Det.knownNondeterministic (none today: all repaired)
 
 
 def main():
